@@ -320,7 +320,35 @@ func c10RunSchema(c hx.Case) any {
 
 func c10DocHasRefCycle(doc map[string]any) bool {
 	comps, _ := doc["components"].(map[string]any)
-	schemas, _ := comps["schemas"].(map[string]any)
+	all, _ := comps["schemas"].(map[string]any)
+	if len(all) == 0 {
+		return false
+	}
+	// only the components an operation can reach matter (every generated document carries the whole component pool)
+	schemas := map[string]any{}
+	var mark func(v any)
+	mark = func(v any) {
+		switch x := v.(type) {
+		case map[string]any:
+			if r, ok := x["$ref"].(string); ok && strings.HasPrefix(r, "#/components/schemas/") {
+				n := strings.TrimPrefix(r, "#/components/schemas/")
+				if _, seen := schemas[n]; !seen {
+					if s, ok := all[n]; ok {
+						schemas[n] = s
+						mark(s)
+					}
+				}
+			}
+			for _, y := range x {
+				mark(y)
+			}
+		case []any:
+			for _, y := range x {
+				mark(y)
+			}
+		}
+	}
+	mark(doc["paths"])
 	if len(schemas) == 0 {
 		return false
 	}
@@ -847,26 +875,17 @@ func cmpC10x(c hx.Case, impl any, reply map[string]any) hx.Verdict {
 			return hx.Verdict{IM: true, IS: true}
 		}
 		// the model's statement about one concrete exchange is a set of allowed outcomes (the decoders' answers are
-		// open in it): normal return always; a crash (unbounded recursion) only with may_crash; a panic while an
-		// error's text is produced only with may_unprintable. Anything else the implementation does disagrees.
+		// open in it): normal return always; a fatal stack overflow (unbounded recursion) only with may_crash. A
+		// recovered panic, a memory-watchdog crash or anything else the implementation does disagrees.
 		v.IM = true
 		if bad {
 			_, isPanic := im["panic"]
+			crash := jstr(im, "crash")
 			switch {
-			case !isPanic:
-				// crash or hang: the recorded unbounded recursion (stack overflow) or the recorded unbounded
-				// allocation (memory watchdog / no return within the time limit)
-				crash := jstr(im, "crash")
-				switch {
-				case strings.Contains(crash, "memory watchdog"):
-					v.IM = jbool(model, "may_exhaust")
-				case crash != "":
-					v.IM = jbool(model, "may_crash")
-				default: // hang
-					v.IM = jbool(model, "may_crash") || jbool(model, "may_exhaust")
-				}
-			default:
-				v.IM = c10PanicsAllowed(im, jbool(model, "may_unprintable"), jbool(model, "may_copy_panic"))
+			case isPanic || strings.Contains(crash, "memory watchdog"):
+				v.IM = false
+			default: // stack overflow, or no return within the time limit
+				v.IM = jbool(model, "may_crash")
 			}
 			if !v.IM {
 				v.Detail += " (not an outcome the model allows for this input)"
@@ -881,30 +900,6 @@ func cmpC10x(c hx.Case, impl any, reply map[string]any) hx.Verdict {
 		}
 	}
 	return v
-}
-
-// every recorded panic is one of the recorded defects, and one the model allows for this input:
-//   F-C10-6 the JSON encoder's error re-raised by SchemaError.Error while the text of an error (or its encoding for
-//           the client) is produced;
-//   F-C10-7 reflect's panic inside deepcopy.Copy called by visitXOFOperations.
-func c10PanicsAllowed(im map[string]any, unprintable, copyPanic bool) bool {
-	l := jlist(im["panics"])
-	if len(l) == 0 {
-		return false
-	}
-	for _, x := range l {
-		m, _ := x.(map[string]any)
-		stage, msg, site := jstr(m, "stage"), jstr(m, "msg"), jstr(m, "site")
-		switch {
-		case unprintable && strings.HasPrefix(msg, "json: unsupported ") && strings.Contains(site, "SchemaError).Error") &&
-			(stage == "errtext" || stage == "encode" || stage == "resp-errtext" || stage == "resp-convert" || stage == "middleware" || stage == "vhandler"):
-		case copyPanic && strings.HasPrefix(msg, "reflect: call of reflect.Value.") && strings.Contains(site, "visitXOFOperations") &&
-			(stage == "request" || stage == "response" || stage == "middleware" || stage == "vhandler"):
-		default:
-			return false
-		}
-	}
-	return true
 }
 
 // ------------------------------------------------------------------ generate
@@ -1110,6 +1105,8 @@ var c10SchemaPool = []string{
 	`{"type":"object","discriminator":{"propertyName":"k"},"oneOf":[{"$ref":"#/components/schemas/Cat"},{"$ref":"#/components/schemas/Dog"}]}`,
 	`{"type":"object","discriminator":{"propertyName":"k","mapping":{"c":"#/components/schemas/Cat","x":"#/components/schemas/Nope"}},"oneOf":[{"$ref":"#/components/schemas/Cat"}]}`,
 	`{"$ref":"#/components/schemas/Tree"}`, `{"$ref":"#/components/schemas/List"}`, `{"$ref":"#/components/schemas/Cat"}`, `{"$ref":"#/components/schemas/Loop"}`,
+	`{"$ref":"#/components/schemas/Labels"}`, `{"$ref":"#/components/schemas/Bag"}`, `{"type":"array","items":{"$ref":"#/components/schemas/Maybe"}}`,
+	`{"additionalProperties":{"type":"integer"}}`, `{"additionalProperties":{}}`, `{"properties":{"a":{}}}`,
 	`{"type":"array","items":{"$ref":"#/components/schemas/Tree"}}`, `{"allOf":[{"$ref":"#/components/schemas/Tree"},{"$ref":"#/components/schemas/Cat"}]}`,
 	`{"type":"string","maxLength":9223372036854775808}`, `{"type":"array","maxItems":0,"items":{"type":"integer"}}`, `{"type":"object","minProperties":1,"maxProperties":0}`,
 }
@@ -1119,7 +1116,10 @@ const c10Components = `{
  "Dog":{"type":"object","properties":{"k":{"type":"string"},"b":{"type":"boolean"}},"required":["k"]},
  "Tree":{"type":"object","properties":{"v":{"type":"integer"},"kids":{"type":"array","items":{"$ref":"#/components/schemas/Tree"}}}},
  "List":{"type":"array","items":{"$ref":"#/components/schemas/List"}},
- "Loop":{"type":"object","properties":{"next":{"$ref":"#/components/schemas/Loop"}}}
+ "Loop":{"type":"object","properties":{"next":{"$ref":"#/components/schemas/Loop"}}},
+ "Labels":{"additionalProperties":{"$ref":"#/components/schemas/Labels"}},
+ "Bag":{"additionalProperties":{"additionalProperties":{"$ref":"#/components/schemas/Bag"}}},
+ "Maybe":{"nullable":true,"additionalProperties":{"$ref":"#/components/schemas/Labels"}}
 }`
 
 func c10J(s string) any {
@@ -1132,7 +1132,19 @@ func c10J(s string) any {
 	return v
 }
 
-func c10Schema(r *hx.Rng) any { return c10J(hx.Pick(r, c10SchemaPool)) }
+// references into the additionalProperties cycles (Labels, Bag, Maybe) are allowed in three documents out of ten: every
+// exchange of such a document runs in a child process, and a defect on that path costs a process per case
+var c10AllowAPCycle bool
+
+func c10Schema(r *hx.Rng) any {
+	for {
+		s := hx.Pick(r, c10SchemaPool)
+		if !c10AllowAPCycle && (strings.Contains(s, "schemas/Labels") || strings.Contains(s, "schemas/Bag") || strings.Contains(s, "schemas/Maybe")) {
+			continue
+		}
+		return c10J(s)
+	}
+}
 
 // the loader does not resolve references inside a header's content: keep those schemas reference-free
 func c10SchemaNoRef(r *hx.Rng) any {
@@ -1288,6 +1300,7 @@ func c10Operation(r *hx.Rng, tpl string) map[string]any {
 }
 
 func c10Doc(r *hx.Rng) (map[string]any, []string) {
+	c10AllowAPCycle = r.Chance(30)
 	doc := map[string]any{"openapi": "3.0.0", "info": map[string]any{"title": "t", "version": "1"}}
 	comps := c10J(c10Components).(map[string]any)
 	if r.Chance(3) {
@@ -1522,7 +1535,8 @@ func c10RandTraffic(r *hx.Rng) hx.Case {
 		case k < 25: // deepObject query parameter with array / nested properties, addressed by bracketed indexes
 			m := hx.Pick(r, ops)
 			op := doc["paths"].(map[string]any)[tpl].(map[string]any)[m].(map[string]any)
-			name := hx.Pick(r, []string{"p", "q"})
+			// the name is data too: the decoder builds a regular expression around it
+			name := hx.Pick(r, []string{"p", "q", "p", "q", "ids[]", "a(b", "*x", "a.b", "$f", "p+", "x)", "[", "a|b", "p\\"})
 			prm := map[string]any{"name": name, "in": "query", "style": "deepObject", "explode": true, "schema": c10J(hx.Pick(r, []string{
 				`{"type":"object","properties":{"b":{"type":"array","items":{"type":"integer"}}}}`,
 				`{"type":"object","properties":{"b":{"type":"array","items":{"type":"integer","nullable":true}},"a":{"type":"integer"}}}`,
@@ -1543,14 +1557,18 @@ func c10RandTraffic(r *hx.Rng) hx.Case {
 			if r.Chance(2) {
 				idx = hx.Pick(r, []string{"2000000000", "9223372036854775807", "+4000000000", "100000000000"}) // F-C10-8 (runs in a child)
 			}
-			q := name + "[b][" + idx + "]=" + hx.Pick(r, []string{"1", "x", "", "NaN"})
+			qn := name
+			if r.Chance(70) {
+				qn = url.QueryEscape(name) // the key as a client that knows the name would send it
+			}
+			q := qn + "[b][" + idx + "]=" + hx.Pick(r, []string{"1", "x", "", "NaN"})
 			switch r.Intn(4) {
 			case 0:
-				q += "&" + name + "[b][0]=2"
+				q += "&" + qn + "[b][0]=2"
 			case 1:
-				q += "&" + name + "[b][" + idx + "][0]=3"
+				q += "&" + qn + "[b][" + idx + "][0]=3"
 			case 2:
-				q += "&" + name + "[a]=1&" + name + "[b][1][c]=4"
+				q += "&" + qn + "[a]=1&" + qn + "[b][1][c]=4"
 			}
 			req["query"] = q
 		}
@@ -1579,14 +1597,20 @@ var c10WalkPool = []string{
 	`{"oneOf":[{"type":"object"},{"type":"array","items":{"type":"object"}}]}`, `{"anyOf":[{"type":"string"},{"type":"object","additionalProperties":{"type":"object"}}]}`,
 	`{"allOf":[{"type":"object"},{"additionalProperties":{"type":"object"}}]}`, `{"not":{"type":"object"}}`, `{"enum":[{"a":1},[1]]}`,
 	`{"type":"object","additionalProperties":{"type":"number"},"minProperties":3}`, `{"type":"array","uniqueItems":true,"items":{}}`,
-	`{"$ref":"#/components/schemas/Tree"}`, `{"$ref":"#/components/schemas/Cat"}`,
+	`{"$ref":"#/components/schemas/Tree"}`, `{"$ref":"#/components/schemas/Cat"}`, `{"$ref":"#/components/schemas/Labels"}`,
 }
 
 func c10WalkSchema(r *hx.Rng) any {
 	if r.Chance(25) {
 		return c10Schema(r)
 	}
-	return c10J(hx.Pick(r, c10WalkPool))
+	for {
+		s := hx.Pick(r, c10WalkPool)
+		if !c10AllowAPCycle && strings.Contains(s, "schemas/Labels") {
+			continue
+		}
+		return c10J(s)
+	}
 }
 
 func c10YamlScalar(r *hx.Rng) map[string]any {
@@ -1675,7 +1699,34 @@ func c10Deep(c hx.Case) hx.Case {
 	return out
 }
 
+// every candidate of a case that runs in a child process costs a process when the defect is a fatal crash: such cases
+// get a small number of candidates per round and a budget of rounds for the whole run
+var c10CostlyShrinkRounds = 0
+
 func shrinkC10(c hx.Case) []hx.Case {
+	out := shrinkC10All(c)
+	costly := false
+	switch jstr(c, "op") {
+	case "schema":
+		costly = c10DefsCyclic(jlist(c["defs"]))
+	case "traffic":
+		doc, _ := c["doc"].(map[string]any)
+		rq, _ := c["req"].(map[string]any)
+		costly = c10DocHasRefCycle(doc) || c10HugeIndex(jstr(rq, "query"))
+	}
+	if costly {
+		c10CostlyShrinkRounds++
+		if c10CostlyShrinkRounds > 40 {
+			return nil
+		}
+		if len(out) > 8 {
+			out = out[:8]
+		}
+	}
+	return out
+}
+
+func shrinkC10All(c hx.Case) []hx.Case {
 	var out []hx.Case
 	switch jstr(c, "op") {
 	case "server":
